@@ -46,7 +46,7 @@ Proof.
 Qed.
 
 Lemma take_nil : forall l, take l [] = [].
-Proof. intros. unfold take. destruct (l <? 0)%Z; auto. apply firstn_nil. Qed.
+Proof. intros. unfold take. destruct (l <? 0)%Z; auto. cbn [length]. destruct (Z.of_nat 0 <=? l)%Z; auto. apply firstn_nil. Qed.
 
 (* the items computed by getLocked/Get = the arithmetic filter of the spec *)
 Definition get_items (s : stream) (f : hfilter) : list item :=
